@@ -156,7 +156,7 @@ class ModuleInfo(object):
             warnings.simplefilter('ignore')
             self.tree = ast.parse(self.src, self.path)
         from .normalise import normalise
-        self.tree = normalise(self.tree)
+        self.tree = normalise(self.tree, name)
         self.nlines = self.src.count('\n') + 1
         self.classes, self.functions, self.globals = {}, {}, {}
         self.star_imports, self.imports = [], {}
